@@ -185,23 +185,23 @@ func tok(v reflect.Value) int64 {
 	return 0 // non-basic map keys: paths use 0
 }
 
-var srcTypes = map[uintptr]reflect.Type{}
+var srcTypes = map[string]reflect.Type{} // kind:address -> static type of the source node
 
 func collect(v reflect.Value, set map[uintptr]bool) {
 	switch v.Kind() {
 	case reflect.Ptr:
-		if !v.IsNil() { if v.Type().Elem().Size() > 0 { set[v.Pointer()] = true; srcTypes[v.Pointer()] = v.Type() }; collect(v.Elem(), set) }
+		if !v.IsNil() { if v.Type().Elem().Size() > 0 { set[v.Pointer()] = true; srcTypes[fmt.Sprintf("p:%d", v.Pointer())] = v.Type() }; collect(v.Elem(), set) }
 	case reflect.Slice:
 		if !v.IsNil() && v.Len() > 0 && v.Type().Elem().Size() > 0 {
 			set[v.Pointer()] = true
-			srcTypes[v.Pointer()] = v.Type()
+			srcTypes[fmt.Sprintf("s:%d", v.Pointer())] = v.Type()
 			for i := 0; i < v.Len(); i++ { set[v.Index(i).Addr().Pointer()] = true } // interior pointers (&s[i])
 		}
 		for i := 0; i < v.Len(); i++ { collect(v.Index(i), set) }
 	case reflect.Array:
 		for i := 0; i < v.Len(); i++ { collect(v.Index(i), set) }
 	case reflect.Map:
-		if !v.IsNil() { set[v.Pointer()] = true; srcTypes[v.Pointer()] = v.Type()
+		if !v.IsNil() { set[v.Pointer()] = true; srcTypes[fmt.Sprintf("m:%d", v.Pointer())] = v.Type()
 			it := v.MapRange()
 			for it.Next() { collect(it.Key(), set); collect(it.Value(), set) } }
 	case reflect.Struct:
@@ -219,7 +219,8 @@ func (p *pr) show(v reflect.Value, n0 int, path []string, shared *[]string, unde
 	id := func(a uintptr) int {
 		if p.src[a] {
 			if !under && shared != nil { *shared = append(*shared, "[" + strings.Join(path, "; ") + "]") }
-			if st, ok := srcTypes[a]; ok && shared != nil && st != v.Type() {
+			kk := map[reflect.Kind]string{reflect.Ptr: "p", reflect.Slice: "s", reflect.Map: "m"}[v.Kind()]
+			if st, ok := srcTypes[fmt.Sprintf("%s:%d", kk, a)]; ok && shared != nil && st != v.Type() {
 				p.nonident = append(p.nonident, fmt.Sprintf("%s shared as %s", st, v.Type()))
 			}
 			return 2
@@ -337,7 +338,7 @@ func sc(s, d reflect.Value, path string, skip map[string]bool) string {
 func report(w *bufio.Writer, id int, n0 int, srcp, resp interface{}, before string, skip map[string]bool) {
 	src, res := reflect.ValueOf(srcp).Elem(), reflect.ValueOf(resp).Elem()
 	set := map[uintptr]bool{}
-	srcTypes = map[uintptr]reflect.Type{}
+	srcTypes = map[string]reflect.Type{}
 	collect(src, set)
 	p := &pr{src: set}
 	var shared []string
@@ -383,7 +384,7 @@ func reportUpdate(w *bufio.Writer, id int, n0 int, srcp, resp interface{}, befor
 		}
 		f, ok := s.Type().FieldByName(name)
 		if !ok || len(f.Index) != 1 {
-			if post[i] != pre[i] { verdict = "field " + name + " has no source but changed" }
+			if post[i] != pre[i] && !skip["<othersources>"] { verdict = "field " + name + " has no source but changed" }
 			continue
 		}
 		sf := s.Field(f.Index[0])
@@ -398,7 +399,7 @@ func reportUpdate(w *bufio.Writer, id int, n0 int, srcp, resp interface{}, befor
 			if post[i] != pre[i] { verdict = fmt.Sprintf("zero-valued source field %s (category %d selected) but the target field changed from %s to %s", name, cat, pre[i], post[i]) }
 			continue
 		}
-		if !sf.IsZero() && !(sf.Kind() == reflect.Struct && (zf[0] || zf[1] || zf[2])) { // nested structs are updated field-wise under the flags
+		if !sf.IsZero() && sf.Kind() != reflect.Struct && sf.Kind() != reflect.Array { // nested structs are updated field-wise (their own nil guards / zero guards apply)
 			if m := sc(sf, res.Field(i), "."+name, skip); m != "" { verdict = "non-zero source field not converted: " + m }
 		}
 	}
